@@ -172,6 +172,17 @@ def handlePatch (inp impl : Json) : R OpResult := do
       holds := [("C12.i", ips.isEmpty || early), ("C12.ii", ips.isEmpty || early), ("C12.iii", ips.isEmpty || early)] ++ holds
     | some rps =>
       if rps.any (·.hp.isSome) then tags := "rs-hash-computed" :: tags
+      if planned.any (· < 0) then tags := "plan-not-monotone" :: tags
+      if rps.any (fun rp => hasId cfg rp.pod && !rp.pod.terminating && !liveNew cfg rp) then
+        tags := "old-revision-pod-with-current-id" :: tags
+      if (withPods rps iafter).any (fun rp => liveNew cfg rp && !hasId cfg rp.pod) then
+        tags := "candidates-left-unlabelled" :: tags
+      if (List.range (planned.length + 1)).any (fun b => b ≥ 1 &&
+          decide ((labelled cfg b (withPods rps iafter) : Int) < increment planned b)) then
+        tags := "budget-left-unused" :: tags
+      if (List.range (planned.length + 1)).any (fun b => b ≥ 1 &&
+          decide ((labelled cfg b rps : Int) > increment planned b)) then
+        tags := "batch-over-labelled-before" :: tags
       holds := [("C12.i", okLive cfg rps ips), ("C12.ii", okBudget cfg planned rps (withPods rps iafter)),
                 ("C12.iii", okFresh cfg rps ips)] ++ holds
   if implRes == "ok" then
